@@ -62,7 +62,11 @@ fn masters() -> Vec<(&'static str, Node)> {
             named("ECUC-MODULE-CONFIGURATION-VALUES", "cfg").child(Node::new("CONTAINERS").child(named("ECUC-CONTAINER-VALUE", "k").child(Node::new("PARAMETER-VALUES").child(param("/d/b", "2")).child(param("/d/a", "1"))))),
         ))),
     );
-    vec![("packages-and-elements", m1), ("bsw-values-by-definition-ref", m2), ("flat-bag", m3), ("tiny-bag", m4), ("tiny-bsw", m5)]
+    // an element kind that exists from R19-11 (00048 ... mask 1e0000 = 00050 on) only: it can only live in the newer file
+    let m6 = Node::new("AUTOSAR").child(
+        Node::new("AR-PACKAGES").child(named("AR-PACKAGE", "v").child(Node::new("ELEMENTS").child(named("APPLICATION-INTERFACE", "n")).child(named("CAN-CLUSTER", "c")).child(named("SYSTEM", "s")))),
+    );
+    vec![("version-specific-element", m6), ("packages-and-elements", m1), ("bsw-values-by-definition-ref", m2), ("flat-bag", m3), ("tiny-bag", m4), ("tiny-bsw", m5)]
 }
 
 /// identity of a node among its siblings: kind + SHORT-NAME or DEFINITION-REF text
@@ -100,6 +104,10 @@ fn slots(master: &Node, v: AutosarVersion) -> Vec<Slot> {
     out
 }
 
+thread_local! {
+    static NOT_A_VALID_VIEW: std::cell::Cell<bool> = const { std::cell::Cell::new(false) };
+}
+
 /// restriction of the master to one file: elements whose effective set contains the file
 fn restrict(n: &Node, key: &str, file: usize, assign: &BTreeMap<String, BTreeSet<usize>>, inherited: &BTreeSet<usize>, reverse: bool, t: ElementType, v: AutosarVersion) -> Option<Node> {
     let set = assign.get(key).unwrap_or(inherited);
@@ -114,8 +122,13 @@ fn restrict(n: &Node, key: &str, file: usize, assign: &BTreeMap<String, BTreeSet
             Item::Text(v2) => out.items.push(Item::Text(v2.clone())),
             Item::Node(c) => {
                 let ckey = format!("{key}/{}", ident(c));
-                let ct = ElementName::from_str(&c.name).ok().and_then(|nm| t.find_sub_element(nm, v as u32)).map(|x| x.0).unwrap_or(t);
+                let found = ElementName::from_str(&c.name).ok().and_then(|nm| t.find_sub_element(nm, v as u32)).map(|x| x.0);
+                let ct = found.unwrap_or(t);
                 if let Some(r) = restrict(c, &ckey, file, assign, set, reverse, ct, v) {
+                    if found.is_none() {
+                        // the distribution puts an element into a file whose version does not have it: not a valid partial view
+                        NOT_A_VALID_VIEW.with(|x| x.set(true));
+                    }
                     kids.push(r);
                 }
             }
@@ -176,7 +189,12 @@ struct Case<'a> {
 
 fn run_case(ctx: &Ctx, c: &Case) {
     let all: BTreeSet<usize> = (0..c.nfiles).collect();
-    let docs: Vec<Option<Node>> = (0..c.nfiles).map(|f| restrict(c.master, "", f, &c.assign, &all, c.reverse[f], ElementType::ROOT, V49)).collect();
+    NOT_A_VALID_VIEW.with(|x| x.set(false));
+    let docs: Vec<Option<Node>> = (0..c.nfiles).map(|f| restrict(c.master, "", f, &c.assign, &all, c.reverse[f], ElementType::ROOT, c.versions[f])).collect();
+    if NOT_A_VALID_VIEW.with(|x| x.get()) {
+        ctx.count("distributions_skipped_element_not_in_file_version", 1);
+        return;
+    }
     let texts: Vec<String> = docs.iter().enumerate().map(|(f, d)| print_document(d.as_ref().unwrap(), c.versions[f], &PrintOpts::default())).collect();
     let w = |extra: Value| {
         json!({"kind": "merge", "master": c.master_name, "files": texts, "load_order": c.order, "assignment": c.assign.iter().map(|(k, v)| format!("{k} -> {v:?}")).collect::<Vec<_>>(), "detail": extra})
@@ -342,7 +360,7 @@ pub fn run(tier: Tier) -> i32 {
     let cases = AtomicU64::new(0);
     let mut distributions = 0u64;
     for (mname, master) in masters().iter() {
-        let sl = slots(master, V49);
+        let sl = slots(master, V50);
         ctx.count(&format!("slots_{mname}"), sl.len() as u64);
         for nfiles in tier.pick(vec![2usize, 3], vec![2usize, 3, 4]) {
             let cap: usize = tier.pick(20_000, 400_000);
